@@ -296,7 +296,17 @@ def main(argv=None):
 
     wall = time.time() - t0
     all_proved = n_obl > 0 and n_dis == n_obl and not errors and not known
-    level = "proof" if all_proved else "other"
+    claimed = None
+    try:
+        with open(os.path.join(VERIF, "MANIFEST.json")) as fd:
+            for chk in json.load(fd).get("checks", []):
+                if chk["property_id"] == prop:
+                    claimed = chk["level_claimed"]["category"]
+    except Exception:
+        pass
+    # 'proof' is reported only when it is claimed AND every obligation was discharged with no
+    # finding left open; a check claimed at level 'other' always reports 'other'
+    level = "proof" if (all_proved and claimed in (None, "proof")) else "other"
     ncov = NOT_COVERED.get(prop, [])
     cov = {
         "obligations": n_obl,
@@ -333,7 +343,7 @@ def main(argv=None):
         "wall_s": round(wall, 2),
         "violations": len(violations),
     }
-    if not a.only:
+    if not a.only and not os.environ.get("VERIF_NO_EVIDENCE"):
         os.makedirs(os.path.join(VERIF, "evidence"), exist_ok=True)
         with open(os.path.join(VERIF, "evidence", f"{prop}.json"), "w") as fd:
             json.dump(ev, fd, indent=1, default=str)
